@@ -14,8 +14,25 @@ for e in sorted(kf, key=lambda e: (e['status'] != 'open', e['property'])):
 findings = '\n'.join(rows)
 seeds = subprocess.run(['/venv/bin/python', str(ROOT / 'harness' / 'seedreport.py')], capture_output=True, text=True).stdout
 seeds = '\n'.join(l for l in seeds.splitlines() if not l.startswith('WARNING'))
+import importlib, sys
+sys.path.insert(0, str(ROOT / 'harness'))
+st = ['| id | theorems audited on every run | generated (translator) Lean files the theorems depend on | open statements (not claimed as proved) |', '|---|---|---|---|']
+gen_by_prop = {'C01': 'Gen/Core', 'C02': 'Gen/{Components,Transform,CircuitTables}', 'C07': 'Gen/{Components,Transform,CircuitTables}',
+               'C19': 'Gen/{Components,CircuitTables}', 'C08': 'Gen/Fourier', 'C17': 'Gen/LoadTables', 'C20': 'Gen/Effects',
+               'C18': 'Gen/{FmtTables,FmtGuard}', 'C14': 'Gen/AnnotTables', 'C13': 'Gen/DrawTables', 'C15': 'Gen/DrawTables', 'C06': 'Gen/PortImports'}
+for i in range(1, 21):
+    pid = f'C{i:02d}'
+    try:
+        m = importlib.import_module(f'props.{pid.lower()}')
+    except Exception as ex:
+        st.append(f'| {pid} | (module does not import: {ex}) | | |'); continue
+    gens = sorted({x for x in getattr(m, 'LEAN_MODULE_EXTRA', []) if 'Gen' in x})
+    gen = gen_by_prop.get(pid, '—') + (('; ' + ', '.join(gens)) if gens else '')
+    op = '; '.join(getattr(m, 'OPEN_STATEMENTS', [])) or '—'
+    st.append(f"| {pid} | {len(getattr(m, 'THEOREMS', []))} | {gen} | {esc(op)[:400]} |")
+status = '\n'.join(st)
 d = (ROOT / 'DESIGN.md').read_text()
-for name, body in (('findings', findings), ('seeded', seeds)):
+for name, body in (('findings', findings), ('seeded', seeds), ('status', status)):
     b, e = f'<!-- BEGIN:{name} -->', f'<!-- END:{name} -->'
     if b in d:
         d = d[:d.index(b) + len(b)] + '\n' + body + '\n' + d[d.index(e):]
